@@ -270,6 +270,44 @@ CasesDevLastOfName(u) == { MkCaseB(2, {{1, 2}}, NoLab({{1, 2}}), <<"D", "D">>, N
                            MkCaseB(2, {{1, 2}}, NoLab({{1, 2}}), <<"E", "E">>, NoLabs(2), BlocksDE,
                                    << Lk(<<Z, P1>>, <<AtR(1, "s", DE), AtR(2, "d1", DE)>>, <<Bond(1, 2, "0.2")>>) >>) }
 
+(* ---- family W (independent seed6-C02-2): link-wide attribute lines (`resname "A"` directly under [ link ]) combined with [ non-edges ], over   *)
+(* residues A and C that carry the same atom names: only the residue name in the description of the non-edge partner tells "followed by another A" *)
+(* from "followed by a C".  The partner is described by its own attributes AND the link-wide lines (Links!NESel).                                  *)
+LkW(wide, orders, atoms, inters, xedges, nonedges, patterns) ==
+  [orders |-> orders, atoms |-> atoms, inters |-> inters, xedges |-> xedges, nonedges |-> nonedges, patterns |-> patterns, wide |-> wide]
+NEn(from, ord, an) == [from |-> from, ord |-> ord, sel |-> [atomname |-> <<an>>]]      \* partner written by name only: the link-wide lines complete it
+WA == [resname |-> OA]
+WAC == [resname |-> AC]
+ChainW(p) == LkW(WAC, <<Z, p>>, <<AtN(1, "a2"), AtN(2, "a1")>>, <<Bond(1, 2, "0.2")>>, <<>>, <<>>, <<>>)      \* a2 - a1 of the next residue, whatever the two are called
+ChainR(p) == Lk(<<Z, p>>, <<AtR(1, "a2", AC), AtR(2, "a1", AC)>>, <<Bond(1, 2, "0.2")>>)                        \* the same with the name on every atom
+LastOfRunW == LkW(WA, <<Z>>, <<WithRep(AtN(1, "a2"), "atype", "X")>>, <<>>, <<>>, <<NEn(1, 1, "a1")>>, <<>>)    \* an A that is not followed by an A
+WideFFs == {
+  << ChainW(P1), LastOfRunW >>,
+  << ChainW(GT), LastOfRunW >>,                                             \* bonds to every later neighbour: only the one with residue id + 1 can veto
+  \* angle -a2 a2 a1 over two A, the second one not followed by an A
+  << ChainW(P1), LkW(WA, <<Z, O("num", -1)>>, <<AtN(2, "a2"), AtN(1, "a2"), AtN(1, "a1")>>, <<Angle(1, 2, 3, "0.3")>>, <<>>, <<NEn(2, 1, "a1")>>, <<>>) >>,
+  \* an A that is not preceded by an A (partner in the residue before)
+  << ChainW(P1), LkW(WA, <<Z>>, <<WithRep(AtN(1, "a1"), "atype", "Y")>>, <<>>, <<>>, <<NEn(1, -1, "a2")>>, <<>>) >>,
+  \* the partner's own residue name takes precedence over the link-wide one: any residue that is not followed by a C
+  << ChainW(P1), LkW(WAC, <<Z>>, <<WithRep(AtN(1, "a2"), "atype", "X")>>, <<>>, <<>>, <<NE(1, 1, "a1", OC)>>, <<>>) >>,
+  \* an atom's own residue name takes precedence (A followed by C), the partner is completed by the link-wide line (not preceded by an A)
+  << ChainW(P1), LkW(WA, <<Z, P1>>, <<AtN(1, "a1"), AtN(1, "a2"), AtR(2, "a1", OC)>>, <<Angle(1, 2, 3, "0.3")>>, <<>>, <<NEn(1, -1, "a2")>>, <<>>) >>,
+  \* two link-wide lines: the partner a1 would also have to be of type TC, which it never is - the link applies to every residue
+  << ChainW(P1), LkW([resname |-> AC, atype |-> <<"TC">>], <<Z>>, <<WithRep(AtN(1, "a2"), "atype", "X")>>, <<>>, <<>>, <<NEn(1, 1, "a1")>>, <<>>) >>,
+  \* the same conditions with the residue name written on the atoms and on the partner themselves
+  << ChainR(P1), LkF(<<Z>>, <<WithRep(AtR(1, "a2", OA), "atype", "X")>>, <<>>, <<>>, <<NE(1, 1, "a1", OA)>>, <<>>) >>,
+  << ChainR(P1), LkF(<<Z>>, <<WithRep(AtR(1, "a2", AC), "atype", "X")>>, <<>>, <<>>, <<NE(1, 1, "a1", OC)>>, <<>>) >>,
+  << ChainR(GT), LkF(<<Z, O("num", -1)>>, <<AtR(2, "a2", OA), AtR(1, "a2", OA), AtR(1, "a1", OA)>>, <<Angle(1, 2, 3, "0.3")>>, <<>>, <<NE(2, 1, "a1", OA)>>, <<>>) >> }
+GsW(u) == UNION { UNION { { <<n, es, nm, NoLab(es), NoLabs(n)>> : nm \in NamesAC(n) } : es \in Graphs(n) } : n \in 1..3 }
+          \cup { <<4, PathG(4), nm, NoLab(PathG(4)), NoLabs(4)>> : nm \in NamesAC(4) }
+FFsW(u) == { [blocks |-> Blocks3, links |-> ls] : ls \in WideFFs }
+\* law: the link-wide lines are shorthand for writing the attribute on every atom the link mentions, non-edge partners included
+ResolvedCase(c) == [c EXCEPT !.links = [k \in DOMAIN c.links |-> Resolved(c.links[k])]]
+WideIsShorthand(c, e) == PFinalE(c, e) = PFinal(ResolvedCase(c))
+CasesDevNonEdgeWide(u) == { MkCaseB(2, {{1, 2}}, NoLab({{1, 2}}), <<"A", "C">>, NoLabs(2), Blocks3, << ChainW(P1), LastOfRunW >>),
+                            MkCaseB(3, PathG(3), NoLab(PathG(3)), <<"A", "C", "A">>, NoLabs(3), Blocks3,
+                                    << ChainR(P1), LkF(<<Z>>, <<WithRep(AtR(1, "a2", OA), "atype", "X")>>, <<>>, <<>>, <<NE(1, 1, "a1", OA)>>, <<>>) >>) }
+
 (* ---- family I (independent seed5-C10-1): copies of a two-residue block DI = X(x1, x2) - Y(y1), labelled from_itp, listed consecutively *)
 BlkX == [atoms |-> << [atomname |-> "x1", atype |-> "TA", resname |-> "X"], [atomname |-> "x2", atype |-> "TC", resname |-> "X"] >>, inters |-> << Bond(1, 2, "0.1") >>]
 BlkY == [atoms |-> << [atomname |-> "y1", atype |-> "TB", resname |-> "Y"] >>, inters |-> <<>>]
@@ -368,13 +406,13 @@ GateExport == PrintT(<<"CASE", ToJson([top |-> case.top, co |-> case.co,
                                        must_refuse |-> GateMustRefuse(ExpandTop(case.top), case.co), must_pass |-> GateMustPass(ExpandTop(case.top))])>>)
 
 (* ---- the family of this run *)
-FamGs == CASE Fam = "A" -> GsA(0) [] Fam = "B" -> GsB(0) [] Fam = "C" -> GsC(0) [] Fam = "D" -> GsD(0) [] Fam = "E" -> GsE(0) [] Fam = "M" -> GsM(0) [] Fam = "F" -> GsF(0) [] Fam = "N" -> GsN(0) [] Fam = "R" -> GsR(0) [] Fam = "I" -> GsI(0) [] OTHER -> {}
-FamFFs == CASE Fam = "A" -> FFsA(0) [] Fam = "B" -> FFsB(0) [] Fam = "C" -> FFsC(0) [] Fam = "D" -> FFsD(0) [] Fam = "E" -> FFsE(0) [] Fam = "M" -> FFsM(0) [] Fam = "F" -> FFsF(0) [] Fam = "N" -> FFsN(0) [] Fam = "R" -> FFsR(0) [] Fam = "I" -> FFsI(0) [] OTHER -> {}
+FamGs == CASE Fam = "A" -> GsA(0) [] Fam = "B" -> GsB(0) [] Fam = "C" -> GsC(0) [] Fam = "D" -> GsD(0) [] Fam = "E" -> GsE(0) [] Fam = "M" -> GsM(0) [] Fam = "F" -> GsF(0) [] Fam = "N" -> GsN(0) [] Fam = "R" -> GsR(0) [] Fam = "W" -> GsW(0) [] Fam = "I" -> GsI(0) [] OTHER -> {}
+FamFFs == CASE Fam = "A" -> FFsA(0) [] Fam = "B" -> FFsB(0) [] Fam = "C" -> FFsC(0) [] Fam = "D" -> FFsD(0) [] Fam = "E" -> FFsE(0) [] Fam = "M" -> FFsM(0) [] Fam = "F" -> FFsF(0) [] Fam = "N" -> FFsN(0) [] Fam = "R" -> FFsR(0) [] Fam = "W" -> FFsW(0) [] Fam = "I" -> FFsI(0) [] OTHER -> {}
 FamCases == CASE Fam \in {"A", "B", "C", "D"} -> {}
               [] Fam = "M" -> PlainF({g \in GsM(0) : g[1] <= 3}, FFsM(0))
               [] Fam = "F" -> PlainF({g \in GsF(0) : g[1] <= 2 \/ g[6] \in {<<1, 2, 3>>, <<2, 1, 3>>, <<3, 1, 2>>}}, FFsF(0))
               [] Fam = "N" -> PlainF({g \in GsN(0) : g[1] <= 3}, FFsN(0))
-              [] Fam = "R" -> PlainF(GsR(0), FFsR(0)) [] Fam = "I" -> CasesI(0) [] Fam = "devSkipSameItp" -> CasesDevSkipSameItp(0) [] Fam = "devLastOfName" -> CasesDevLastOfName(0) [] Fam = "devRepBeforePattern" -> CasesDevRepBeforePattern(0)
+              [] Fam = "R" -> PlainF(GsR(0), FFsR(0)) [] Fam = "W" -> PlainF({g \in GsW(0) : g[1] <= 3}, FFsW(0)) [] Fam = "devNonEdgeWide" -> CasesDevNonEdgeWide(0) [] Fam = "I" -> CasesI(0) [] Fam = "devSkipSameItp" -> CasesDevSkipSameItp(0) [] Fam = "devLastOfName" -> CasesDevLastOfName(0) [] Fam = "devRepBeforePattern" -> CasesDevRepBeforePattern(0)
               [] Fam = "devNoAtomResname" -> CasesDevNoAtomResname(0) [] Fam = "devOrderedPairs" -> CasesDevOrderedPairs(0)
               [] Fam = "E" -> PlainF(GsE(0), FFsE(0))      \* exported families are enumerated chunk by chunk, see XNext
               [] Fam = "small" -> CasesSmall(0) [] Fam = "tiny" -> CasesTiny(0) [] Fam = "small4" -> CasesSmall4(0) [] Fam = "gate" -> {} [] Fam = "missing" -> CasesMissing(0) [] Fam = "missingS" -> Plain({g \in GN(2) : TRUE}, { << >> })
@@ -383,7 +421,7 @@ FamCases == CASE Fam \in {"A", "B", "C", "D"} -> {}
               [] Fam = "devPattern" -> CasesDevPattern(0) [] Fam = "devKeepRemoved" -> CasesDevKeepRemoved(0) [] Fam = "devF13" -> CasesDevF13(0)
               [] Fam = "devDegree" -> CasesDevDegree(0) [] Fam = "devVerKey" -> CasesDevVerKey(0)
               [] Fam = "devAll" -> CasesDevMono(0) \cup CasesDevOrder(0) \cup CasesDevLinktype(0) \cup CasesDevFirstWins(0) \cup CasesDevAmbig(0) \cup CasesDevNonEdge(0)
-                                   \cup CasesDevPattern(0) \cup CasesDevKeepRemoved(0) \cup CasesDevVerKey(0) \cup CasesDevNoAtomResname(0) \cup CasesDevOrderedPairs(0) \cup CasesDevLastOfName(0) \cup CasesDevRepBeforePattern(0) \cup CasesDevSkipSameItp(0) \cup CasesDevF13(0) \cup CasesDevDegree(0)
+                                   \cup CasesDevPattern(0) \cup CasesDevKeepRemoved(0) \cup CasesDevVerKey(0) \cup CasesDevNoAtomResname(0) \cup CasesDevOrderedPairs(0) \cup CasesDevLastOfName(0) \cup CasesDevRepBeforePattern(0) \cup CasesDevNonEdgeWide(0) \cup CasesDevSkipSameItp(0) \cup CasesDevF13(0) \cup CasesDevDegree(0)
 
 (* ---- export for the S->I replay: one root state, one chunk state per residue graph (spread over the workers), one state per case *)
 GSeq == SetToSeq(FamGs)
@@ -419,6 +457,7 @@ InputRec(c) == [n |-> c.n, resid |-> c.resid, rattr |-> c.rattr, edges |-> c.edg
 Export == IsCase => LET e == PEnd(case) IN
              /\ InDomain(case) /\ NoTiesE(case, e) /\ e.stable
              /\ (Fam = "E" => DanglingTheorem(case, PFinalE(case, e)))
+             /\ (Fam = "W" => WideIsShorthand(case, e))
              /\ PrintT(<<"CASE", ToJson([input |-> InputRec(case), expected |-> ExpRec(case, e)])>>)
 LemmaOrder == OrderSymmetric
 LemmaTables == st.pc = "begin" => ResMatchesAgree(case)
